@@ -16,6 +16,8 @@ package cache
 
 //@ extern fmt.Sprintf(format, args)
 //@   pure
+//@   ensures len(args) == 3 ==> result == sprintf3(format, payload(args[0]), payload(args[1]), payload(args[2]))
+//@   ensures len(args) == 4 ==> result == sprintf4(format, payload(args[0]), payload(args[1]), payload(args[2]), payload(args[3]))
 
 // container/list, specified over the ghost recency sequence l.seq (entries,
 // front = most recent) and the ghost owner of each element.
@@ -55,6 +57,8 @@ package cache
 
 //@ extern (*sync/atomic.Int64).Add(a, d)
 //@   pure
+//@   gmodifies lastOp
+//@   gensures lastOp == 2
 
 // sync.Mutex: the only mutex locked by functions under contract is diskCache.mu,
 // which protects diskCache.lru. Lock/Unlock carry the lock invariant (DESIGN 2.8):
@@ -160,8 +164,17 @@ package cache
 //@   modifies elems(buf)
 //@   ensures 0 <= result0 && result0 <= len(buf) && (result1 == nil ==> result0 == len(buf))
 
+// Formatting and path joining are uninterpreted functions of their arguments:
+// enough to pin the format string, the order and the identity of the pieces.
 //@ extern path.Join(elem)
 //@   pure
+//@   ensures len(elem) == 2 ==> result == pjoin2(elem[0], elem[1])
+//@   ensures len(elem) == 3 ==> result == pjoin3(elem[0], elem[1], elem[2])
+
+//@ extern path/filepath.Join(elem)
+//@   pure
+//@   ensures len(elem) == 2 ==> result == pjoin2(elem[0], elem[1])
+//@   ensures len(elem) == 3 ==> result == pjoin3(elem[0], elem[1], elem[2])
 
 //@ extern strconv.Itoa(i)
 //@   pure
